@@ -42,6 +42,8 @@ func staticEventNames(fns map[string]*ssa.Function) []string {
 		// a change to the code removed the last call of the function it names (that must surface as a violation of the
 		// clause, not as a contract error)
 		add(name)
+		add(canonFn(name))
+		add("go:" + canonFn(name))
 		if f.Signature != nil && f.Signature.Recv() != nil {
 			// an interface method is called under the interface's name: (pkg.Iface).Method
 			for _, it := range ifaceNames {
